@@ -134,6 +134,10 @@ class Reference:
                 self.need(self.inp)
             except RefFail as f:
                 causes += f.causes
+                if any(i['outcome'] in ('ok', 'rec') for i in self.invocations.get(self.inp, [])):
+                    # the input node succeeded in an earlier iteration and failed in a later one: a node that only
+                    # waits for it (no value) may already have run - and failed - in between
+                    self.ambiguous.append(f'implicit reader {nid} of an input node that failed in a later iteration')
         for kw, m in n['params']:
             try:
                 kwargs[kw] = self._mark(nid, kw, m)
